@@ -1,5 +1,6 @@
 """C03 - an algorithm's rating depends only on the algorithm (and documented context), in every view."""
 import json
+import re
 import time
 
 from mc import evidence, harness as H, par, peer, report
@@ -331,6 +332,80 @@ def work_gex_faults(chunk, st):
     st.sample({'gex_fault_servers': [[list(c[0]), c[1]] for c in chunk[:2]]}, cap=3)
 
 
+# ---- the measured attribute itself: every name of the RSA family (plain and certificate) x key sizes around every threshold, sizes
+# that are not multiples of 8 or 16 included: the size note is the one the documented thresholds give for the size of the key presented,
+# the same for a plain key and for the same key inside a certificate, in both formats
+RSA_PLAIN = ['ssh-rsa', 'rsa-sha2-256', 'rsa-sha2-512']
+RSA_CERT = ['ssh-rsa-cert-v01@openssh.com', 'rsa-sha2-256-cert-v01@openssh.com', 'rsa-sha2-512-cert-v01@openssh.com']
+SIZE_SWEEP = [1023, 1024, 1031, 2040, 2041, 2047, 2048, 2049, 2056, 3064, 3065, 3071, 3072, 3073, 4095, 4096]
+
+
+def size_class(bits):
+    return 'fail' if bits < 2048 else 'warn' if bits < 3072 else None
+
+
+def work_sizes(chunk, st):
+    for names, bits, ca, ca_bits in chunk:
+        names = list(names)
+        for fmt in ('text', 'json'):
+            srv = peer.Server(kex=['curve25519-sha256'], key=names, enc=['aes256-ctr'], mac=['hmac-sha2-256'], banner=b'SSH-2.0-dropbear_2022.83',
+                              host_keys=peer.standard_host_keys(names, rsa_bits=bits, ca=ca, ca_bits=ca_bits))
+            res = H.audit(srv, opts=['-n', '--skip-rate-test'] + (['-j'] if fmt == 'json' else []))
+            root = ('sizes', tuple(names), bits, ca, ca_bits, fmt)
+            st.execution(res.world, outcome=('sizes', res.status, fmt), root=root, nontrivial=root)
+            d = {'names': names, 'key_bits': bits, 'ca': ca, 'ca_bits': ca_bits, 'fmt': fmt, 'status': res.status}
+            if res.status not in (0, 2, 3) or res.hang or res.exc:
+                st.violation('sizes:no-report', dict(d, tail=res.stdout[-200:]))
+                continue
+            for n in names:
+                if fmt == 'json':
+                    e = next((x for x in json.loads(res.stdout).get('key', []) if x['algorithm'] == n), None)
+                    notes = None if e is None else [(lv, t) for lv in ('fail', 'warn', 'info') for t in e.get('notes', {}).get(lv, [])]
+                else:
+                    a = next((x for x in report.TextReport(res.stdout).algs['key'] if x['name'] == n), None)
+                    notes = None if a is None else [(lv, t) for lv, t in a['notes'] if t != '']
+                if notes is None:
+                    st.violation('sizes:name-not-reported:%s' % fmt, dict(d, name=n))
+                    continue
+                kind = 'cert' if '-cert-' in n else 'plain'
+                sz = [(lv, t) for lv, t in notes if size_note(t)]
+                rsa_ca = kind == 'cert' and ca == 'rsa'
+                want = set()
+                if size_class(bits) == 'fail':
+                    want.add(('fail', 'key', bits))
+                if rsa_ca and size_class(ca_bits) == 'fail':
+                    want.add(('fail', 'ca', ca_bits))
+                if size_class(bits) == 'warn' or (rsa_ca and size_class(ca_bits) == 'warn'):
+                    want.add(('warn',))              # one shared wording for the key and for the CA key
+                got = set()
+                for lv, t in sz:
+                    if lv == 'fail':
+                        m = re.search(r'(\d+)-bit', t)
+                        got.add(('fail', 'ca' if ' CA ' in t else 'key', int(m.group(1)) if m else None))
+                    else:
+                        got.add((lv,))
+                if got != want:
+                    which = 'ca-key' if any(len(x) > 1 and x[1] == 'ca' for x in got ^ want) or (rsa_ca and size_class(bits) is None) else 'host-key'
+                    st.violation('sizes:%s-size-note-differs-from-thresholds:%s:%s' % (which, kind, fmt), dict(d, name=n, size_notes=sz, expected=sorted(map(str, want))))
+    st.sample({'size_sweep': [list(chunk[0][0]), chunk[0][1], chunk[0][2], chunk[0][3]]}, cap=6)
+
+
+def size_tasks(tier):
+    out = []
+    for bits in SIZE_SWEEP:
+        out.append((tuple(RSA_PLAIN), bits, 'ed25519', 256))
+        for c in RSA_CERT:
+            out.append(((c,), bits, 'ed25519', 256))
+        out.append((tuple(RSA_CERT + RSA_PLAIN), bits, 'rsa', 4096))
+        # the CA's own size swept, the certified key held at a size without a note
+        out.append(((RSA_CERT[0], RSA_PLAIN[2]), 3072, 'rsa', bits))
+        if tier != 'quick':
+            for c in RSA_CERT:
+                out.append(((c,), 4096, 'rsa', bits))
+                out.append(((c,), bits, 'rsa', bits))
+    return out
+
+
 def run(tier, seed):
     t0 = time.time()
     ts = tasks(tier)
@@ -339,6 +414,7 @@ def run(tier, seed):
     gf = [(sz, style, b) for sz in ((2048,), (2048, 3072), (1024, 4096), (3072,)) for style in (peer.OPENSSH, peer.STRICT)
           for b in (b'SSH-2.0-OpenSSH_8.9p1', b'SSH-2.0-dropbear_2022.83')]
     par.pmap(work_gex_faults, gf, stats=st, chunk=1)
+    par.pmap(work_sizes, size_tasks(tier), stats=st, chunk=4)
     import itertools
     hist = [(k, f) for n in ((2,) if tier == 'quick' else (2, 3)) for k in itertools.product(sorted(HIST), repeat=n) for f in ('text', 'json')]
     par.pmap(work_history, hist, stats=st, chunk=4)
@@ -366,8 +442,9 @@ def run(tier, seed):
         rule='every database name (gss-* entries instantiated with 3 base64 suffixes) and one unknown name per category x position '
              '{alone, first, middle, last} x %d neighbour contexts (marker x CBC x ETM, plus contexts whose neighbours earn measured-size notes: '
              '1024-bit RSA key, certificate with 1024-bit CA, 1024-bit GEX modulus) x role x {text,json}, plus --lookup of every name; '
+             'RSA-family names (plain and certificate) x %d key sizes around every threshold (not multiples of 8/16 included) x CA kinds: size notes as the documented thresholds give for the key presented; '
              'histories: every ordered pair (thorough: triple) of four servers sharing names in ONE -T invocation, each name rated as when its target is audited alone; '
-             'non-trivial = distinct (category, name, documented context, position, role, format)' % len(ctxs),
+             'non-trivial = distinct (category, name, documented context, position, role, format)' % (len(ctxs), len(SIZE_SWEEP)),
         assumptions=['documented context = Terrapin context (refmodels/terrapin.py) and measured sizes (held fixed here)',
                      'notes compared as multisets'],
         exhaustive=True, traces_validated=validated, extra={'names': len(ts)})
